@@ -375,8 +375,10 @@ class Event:
         with self._cond:
             if self._flag.acquire(False):
                 self._flag.release()
-            else:
-                self._cond.wait(timeout)
+            elif self._cond.wait(timeout):
+                # woken by set(): the event was set while we waited, even
+                # if a clear() got the lock before we did.
+                return True
 
             if self._flag.acquire(False):
                 self._flag.release()
